@@ -363,6 +363,12 @@ func (fr *Frame) siteCall(c *ssa.CallCommon, pos token.Pos, args []Val, before b
 		for j, a := range args {
 			env.vars[fmt.Sprintf("arg%d", j)] = a
 		}
+		// "spawned": the call is a go statement (the callee runs concurrently, not before the next statement)
+		if fr.inGo {
+			env.vars["spawned"] = boolVal("true")
+		} else {
+			env.vars["spawned"] = boolVal("false")
+		}
 		if c.IsInvoke() {
 			env.vars["recv"] = fr.get(c.Value)
 		} else if sf := c.StaticCallee(); sf != nil && sf.Signature.Recv() != nil && len(args) > 0 {
